@@ -34,6 +34,9 @@ CFG = {
             "polygon (own arrays / windows of one flat buffer with spare capacity / prefix re-slices) with a bit-for-bit snapshot check; "
             "hist lines query one polygon object, change it in place (coordinates overwritten / ring slots re-pointed), query again and change back, "
             "each answer judged for the polygon as it is at that call. "
+            "cc lines: 2-5 unrelated multi-ring polygonals with long (subdivided) first rings, each asked its own grid 30-40 times by its own "
+            "goroutine, all at the same time, while further goroutines call Polygon.Area on the same polygons and Within on a far-away triangle; "
+            "every answer string of every goroutine is judged by the Spec (Within is a function of point and polygon, whatever other goroutines ask). "
             "A grid line is one polygonal geometry against all grid points; distinct = distinct input line; non-trivial = class not 'skipped'",
     "timeout": {"quick": 900, "thorough": 3000},
 }
